@@ -284,6 +284,7 @@ def check_config(cfg, ops, tmp, ls):
     live = []          # (handler, spec) of file handlers created and still referenced
     created = {}
     attempts = {}      # section index -> handlers of the target logger before the first attempt
+    dropped = []       # files of file handlers the application has dropped (and removed)
     root = logging.getLogger()
     for step, op in enumerate(ops):
         kind = op[0]
@@ -421,14 +422,43 @@ def check_config(cfg, ops, tmp, ls):
             if i in created:
                 lg = created.pop(i)
                 mine = [h for h, s in live if h in lg.handlers]
+                paths = [os.path.abspath(h.baseFilename) for h in mine]
                 for h in list(lg.handlers):
                     if h not in ls.root_handlers:
                         lg.removeHandler(h)
                 live[:] = [(h, s) for h, s in live if h not in mine]
                 factories[i] = None
+                # nothing in this function may keep the dropped handlers alive
                 del mine
-                h = None
+                h = hh = old = lg = fac = target = None
+                config = got = None      # the configuration object holds every factory
+                new = before = streams = closed_before = None
+                attempts.pop(i, None)
                 gc.collect()
+                # the application has let go of these handlers: whatever happens to their
+                # files from now on is the component acting on handlers that are not alive
+                still = set(os.path.abspath(x.baseFilename) for x, _s in live)
+                for pth in paths:
+                    if pth not in still:
+                        try:
+                            os.remove(pth)
+                        except OSError:
+                            pass
+                        dropped.append(pth)
+        if dropped and kind in ("reopen", "reopenFiles", "closeFiles"):
+            back = [pth for pth in dropped if os.path.exists(pth)]
+            if back:
+                out.append(("%s-acts-on-a-dropped-handler" % kind, "file re-created: %s" % os.path.basename(back[0])))
+                dropped[:] = [pth for pth in dropped if pth not in back]
+    if dropped:
+        # final probe: a reopen must leave the files of dropped handlers alone
+        try:
+            loghandler.reopenFiles()
+        except Exception:  # noqa
+            pass
+        back = [pth for pth in dropped if os.path.exists(pth)]
+        if back:
+            out.append(("reopenFiles-acts-on-a-dropped-handler", "file re-created: %s" % os.path.basename(back[0])))
     return "accepted", out
 
 
@@ -610,6 +640,8 @@ NO_SHRINK = True
 def shards(tier, seed):
     specs = [{"kind": "levels", "part": i} for i in range(4)]
     specs.append({"kind": "options"})
+    for i in range(6):
+        specs.append({"kind": "formats", "part": i, "of": 6})
     n = 3500 if tier == "thorough" else 350
     for i in range(16):
         specs.append({"kind": "random", "seed": seed, "lo": i * n, "hi": (i + 1) * n})
@@ -621,9 +653,60 @@ def case_variants(w):
         yield "".join(c.upper() if b else c for c, b in zip(w, bits))
 
 
+CLASSIC_CONVS = "diouxXeEfFgGcrsa"
+CLASSIC_MODS = ["", "-8", "08", ".3", "+", "#"]
+FORMAT_SPECS = ["", "!r", "!s", "!a", ":d", ":x", ":X", ":b", ":o", ":e", ":f", ":g", ":n", ":s", ":c", ":%",
+                ":>10", ":03d", ":.3f", ":,", ":_", ":+", ":<8s", ":#x"]
+
+
+def format_matrix():
+    """Every field x conversion type of the classic and format styles, both template spellings,
+    each with arbitrary-fields unset / true / false (exhaustive)."""
+    out = []
+    for f in FIELDS + ["nosuchfield"]:
+        for c in CLASSIC_CONVS:
+            for m in CLASSIC_MODS:
+                out.append(("classic", "%%(%s)%s%s" % (f, m, c)))
+        for sp in FORMAT_SPECS:
+            out.append(("format", "{%s%s}" % (f, sp)))
+        for st in ("template", "safe-template"):
+            out.append((st, "$%s" % f))
+            out.append((st, "${%s}" % f))
+            out.append((st, "pre$%s.post" % f))
+    return out
+
+
 def run_shard(spec):
     res = Result()
     counters = collections.Counter()
+    if spec["kind"] == "formats":
+        matrix = format_matrix()
+        k = 0
+        for j, (style, fmt) in enumerate(matrix):
+            if j % spec["of"] != spec["part"]:
+                continue
+            for arb in (None, "true", "false"):
+                k += 1
+                h = {"path": "STDOUT", "style": style, "format": fmt}
+                if style == "classic" and k % 2:
+                    del h["style"]
+                if arb:
+                    h["arbitrary-fields"] = arb
+                cfg = [{"type": "logger", "name": "zcv.c20.fm.p%dk%d" % (spec["part"], k), "level": None,
+                        "propagate": None, "handlers": [h]}]
+                res.evaluations += 1
+                status, fl = run_case(cfg, [("call", 0), ("again", 0)])
+                counters["formats:%s:%s" % (style, status)] += 1
+                if status == "accepted":
+                    res.nontrivial()
+                    if len(res.samples) < 1:
+                        res.sample({"style": style, "format": fmt, "arbitrary-fields": arb})
+                for sig, d in fl:
+                    res.fail(sig, {"config": cfg, "ops": [["call", 0], ["again", 0]]}, d)
+        if spec["part"] == 0:
+            res.exhaustive_parts.append("every record field x conversion type x modifier of the classic style, every field x format spec of the format style, both template spellings, with arbitrary-fields unset/true/false")
+        res.counters.update(counters)
+        return res
     if spec["kind"] == "levels":
         spellings = []
         for nm in LEVELS:
